@@ -31,6 +31,8 @@ checks = {
    "Daily file: exactly the expected days (start..end, interval k, leap days) in order; yearly file: one record per annual output date inside the period; crop file: one record per harvested rotation entry in order; every record has the configured number of fields; both styles; random output configurations. One open finding (end-date extension)."),
  "C14": ("simmon", "exploration", "3 C14", "runtime monitoring: probe-and-abort read-back of the effective configuration from the real reader for generated file/line/default combinations, plus full runs with decoy file values",
    "Every scalar key (numeric, text, on/off, enum) in random subsets of file and line, unknown keys, missing file, two argument orders per case: effective value = line, else file, else default; full runs confirm the line value in run state and result files."),
+ "C04": ("simmon", "exploration", "3 C04", "runtime monitoring: on every simulated day the weather arrays the model uses are compared at the probe with the generator's truth table for that calendar date; fault cases (incomplete weather) must end with an error",
+   "Three layouts, leap years, year changes, series starting early, sentinels incl. year boundaries, wind floor as consumed by Penman-Monteith, monthly precipitation correction; incomplete inputs (ends early, gap, missing year, starts late): ten open findings where the readers' errors are dropped, one open finding for a sentinel at the edge of the loaded year range."),
 }
 
 not_applicable = {
@@ -38,7 +40,6 @@ not_applicable = {
 
 pending = {  # not yet built: listed as not claimed until their check exists
  "C03": "check under construction (batch/race engine)",
- "C04": "check under construction",
  "C10": "check under construction",
  "C11": "check under construction",
  "C13": "check under construction",
